@@ -434,6 +434,7 @@ theorem intact_reported [BEq H] [LawfulBEq H] (hf : HashFns H)
       ∃ p, ob.load hf fl (nodeOf k M) = .ok p := by
     intro k M hM hm
     rw [htree] at hM hm
+    simp only at hM hm
     have hM64 : M ≤ 64 := by
       have e1 : midOf k M = startOf k M + 2 ^ M := rfl
       have h1 := Offsets.nChunks_le d.length hs
@@ -450,18 +451,21 @@ theorem intact_reported [BEq H] [LawfulBEq H] (hf : HashFns H)
   exact ⟨(reported_iff hf fl ob d hs' hbs' hno1 q hq _).2.2
       ⟨intact hf hlen hrt d bs hs hbs fl ob htree hroot hk true i hi, ht⟩,
     ((reported_iff_outboard hf fl ob hs' hbs' q hq _).2 hno2).2.2
-      ⟨by
-        have := intact hf hlen hrt d bs hs hbs fl ob htree hroot hk false i hi
-        unfold Verifiable Linked at this ⊢
-        split at this
-        · rw [if_pos ‹_›]; exact ⟨this.1, fun h => by cases h⟩
-        · rw [if_neg ‹_›]; exact linked_false_data this, ht⟩⟩
+      ⟨(Verifiable_false_data hf fl ob d [] _).1
+        (intact hf hlen hrt d bs hs hbs fl ob htree hroot hk false i hi), ht⟩⟩
 
-example : (∀ h, (C03.toyHash.toBytes h).length = 32) ∧
-    (∀ h, C03.toyHash.ofBytes (C03.toyHash.toBytes h) = h) ∧ C03.toyBlob.length ≤ 2 ^ 63 ∧
-    (⟨.preIo, Spec.root C03.toyHash C03.toyBlob, ⟨C03.toyBlob.length, 1⟩,
-      Spec.preOutboard C03.toyHash C03.toyBlob 1⟩ : Store UInt8).tree = ⟨C03.toyBlob.length, 1⟩ ∧
-    Ranges.WF [0] = true ∧ (1 : Nat) ≤ 10 :=
-  ⟨C03.toy_len, C03.toy_rt, C03.toy_size, rfl, by decide, by decide⟩
+/-- the intact io-backed pre-order store of the 3000-byte blob of `C03` at `bs = 1` -/
+def intactStore : Store UInt8 :=
+  ⟨.preIo, Spec.root C03.toyHash C03.toyBlob, ⟨C03.toyBlob.length, 1⟩,
+    Spec.preOutboard C03.toyHash C03.toyBlob 1⟩
+
+example : ∀ i, i < intactStore.tree.blocks →
+    Verifiable C03.toyHash .sync intactStore C03.toyBlob true (groupRange intactStore.tree i) :=
+  intact C03.toyHash C03.toy_len C03.toy_rt C03.toyBlob 1 C03.toy_size (by decide) .sync
+    intactStore rfl rfl (.inl ⟨.inl rfl, rfl⟩) true
+
+example : (validRanges C03.toyHash .fsm intactStore C03.toyBlob [1, 2]).terminal = .ok :=
+  (intact_reported C03.toyHash C03.toy_len C03.toy_rt C03.toyBlob 1 C03.toy_size (by decide) .fsm
+    intactStore rfl rfl (.inl ⟨.inl rfl, rfl⟩) [1, 2] (by decide)).1
 
 end Bao.C06
